@@ -1,0 +1,44 @@
+//go:build verif
+
+package servicediscovery
+
+// Contracts checked by /verif (govc). Comment-only: no executable code.
+// Leader-assigned numbering: leader = 1, followers 2.. in join order; announce only on change (C10).
+
+//@ func (*serviceDiscovery).SetInfo
+//@ props C10 C11
+//@ requires s != nil && s.bus != nil && logger.Log != nil
+//@ let changed = old(s.info) == nil || old(s.info.MemberNumber) != memberNumber || old(s.info.TotalMembers) != totalMembers
+//@ ensures.announce_on_change[C10,C11] calls(EventBus.Bus.Publish) == ite(changed, 1, 0)
+//@ ensures.stored[C10] changed ==> s.info != nil && fresh(s.info) && s.info.MemberNumber == memberNumber && s.info.TotalMembers == totalMembers && arg(EventBus.Bus.Publish, 0, topic) == helpers.MembershipChangedBusEventName
+//@ ensures.kept[C10] !changed ==> s.info == old(s.info)
+//@ modifies s.info, calls(EventBus.Bus.Publish)
+
+//@ func (*serviceDiscovery).GetAll
+//@ props C10
+//@ trusted
+//@ requires s != nil
+//@ ensures len(result) <= 65536
+//@ modifies nothing
+
+//@ iface servicediscovery.Client.Rebalance
+//@ params recv memberNumber totalMembers
+//@ modifies nothing
+
+//@ func (*serviceDiscovery).StartMonitor$1
+//@ props C10
+//@ requires s != nil && s.config != nil && s.bus != nil && s.services != nil && logger.Log != nil
+//@ let R = servicediscovery.Client.Rebalance
+//@ modifies s.info, calls("servicediscovery.(*serviceDiscovery).SetInfo"), calls(EventBus.Bus.Publish), calls(servicediscovery.Client.Rebalance), calls("servicediscovery.(*serviceDiscovery).GetAll")
+//@ loop 1
+//@   invariant.leader_is_one forall i int :: old(ncalls("servicediscovery.(*serviceDiscovery).SetInfo")) <= i && i < ncalls("servicediscovery.(*serviceDiscovery).SetInfo") ==> argat("servicediscovery.(*serviceDiscovery).SetInfo", i, memberNumber) == 1
+//@   invariant.followers_from_two forall i int :: old(ncalls(servicediscovery.Client.Rebalance)) <= i && i < ncalls(servicediscovery.Client.Rebalance) ==> 2 <= argat(servicediscovery.Client.Rebalance, i, memberNumber) && argat(servicediscovery.Client.Rebalance, i, memberNumber) <= argat(servicediscovery.Client.Rebalance, i, totalMembers)
+//@   modifies s.info, calls("servicediscovery.(*serviceDiscovery).SetInfo"), calls(EventBus.Bus.Publish), calls(servicediscovery.Client.Rebalance), calls("servicediscovery.(*serviceDiscovery).GetAll")
+//@ loop 2
+//@   invariant.round len(names) <= 9223372036854775805 && totalMembers == len(names) + 1 && -1 <= rangeindex && rangeindex <= len(names) - 1
+//@   invariant.leader_is_one forall i int :: old(ncalls("servicediscovery.(*serviceDiscovery).SetInfo")) <= i && i < ncalls("servicediscovery.(*serviceDiscovery).SetInfo") ==> argat("servicediscovery.(*serviceDiscovery).SetInfo", i, memberNumber) == 1
+//@   invariant.followers_from_two forall i int :: old(ncalls(servicediscovery.Client.Rebalance)) <= i && i < ncalls(servicediscovery.Client.Rebalance) ==> 2 <= argat(servicediscovery.Client.Rebalance, i, memberNumber) && argat(servicediscovery.Client.Rebalance, i, memberNumber) <= argat(servicediscovery.Client.Rebalance, i, totalMembers)
+//@   invariant.announced ncalls("servicediscovery.(*serviceDiscovery).SetInfo") > old(ncalls("servicediscovery.(*serviceDiscovery).SetInfo")) && argat("servicediscovery.(*serviceDiscovery).SetInfo", ncalls("servicediscovery.(*serviceDiscovery).SetInfo") - 1, totalMembers) == totalMembers && countat(servicediscovery.Client.Rebalance, "servicediscovery.(*serviceDiscovery).SetInfo", ncalls("servicediscovery.(*serviceDiscovery).SetInfo") - 1) <= ncalls(servicediscovery.Client.Rebalance)
+//@   invariant.this_round forall i int :: countat(servicediscovery.Client.Rebalance, "servicediscovery.(*serviceDiscovery).SetInfo", ncalls("servicediscovery.(*serviceDiscovery).SetInfo") - 1) <= i && i < ncalls(servicediscovery.Client.Rebalance) ==> argat(servicediscovery.Client.Rebalance, i, totalMembers) == totalMembers && argat(servicediscovery.Client.Rebalance, i, memberNumber) <= rangeindex + 2
+//@   invariant.distinct forall i int, j int :: countat(servicediscovery.Client.Rebalance, "servicediscovery.(*serviceDiscovery).SetInfo", ncalls("servicediscovery.(*serviceDiscovery).SetInfo") - 1) <= i && i < j && j < ncalls(servicediscovery.Client.Rebalance) ==> argat(servicediscovery.Client.Rebalance, i, memberNumber) < argat(servicediscovery.Client.Rebalance, j, memberNumber)
+//@   modifies calls(servicediscovery.Client.Rebalance)
